@@ -557,6 +557,14 @@ def rule_c06_r5(model: Model) -> RuleResult:
     return r
 
 
+def model_enclosing(x: ast.AST, scope: ast.AST) -> bool:
+    """``x`` belongs to ``scope`` itself, not to a function nested in it."""
+    p_ = getattr(x, '_parent', None)
+    while p_ is not None and not isinstance(p_, (ast.FunctionDef, ast.Lambda)):
+        p_ = getattr(p_, '_parent', None)
+    return p_ is scope
+
+
 def rule_c05_r7(model: Model) -> RuleResult:
     """Writers write the value they are given: into_data neither rebinds its value nor passes it through a narrowing method."""
     r = RuleResult('C05-R7', 'into_data writes the value it is given (or projections of it): the value is not rebound or passed through another '
@@ -586,6 +594,22 @@ def rule_c05_r7(model: Model) -> RuleResult:
                 for m_ in re.finditer(r'self\.(\w+)\((?=[^()]*\bVAL\b)', form):
                     if 'into_data' not in m_.group(1):
                         problems.append((n.ast, f"self.{m_.group(1)}(VAL) is written instead of VAL"))
+        # a part of the value handed back as it is, although the class has a converter for it
+        if subconv_attrs(model, cls):
+            scopes: t.List[ast.AST] = [f.node] + [x for x in ast.walk(f.node) if isinstance(x, (ast.FunctionDef, ast.Lambda)) and x is not f.node]
+            for sc in scopes:
+                params = {a.arg for a in sc.args.args}      # type: ignore[union-attr]
+                if sc is f.node:
+                    params = {vp}
+                body_nodes = ast.walk(sc) if not isinstance(sc, ast.Lambda) else [sc]
+                for x in body_nodes:
+                    val_e = None
+                    if isinstance(x, ast.Return) and model_enclosing(x, sc):
+                        val_e = x.value
+                    elif isinstance(x, ast.Lambda) and x is sc:
+                        val_e = x.body
+                    if isinstance(val_e, ast.Name) and val_e.id in params:
+                        problems.append((x, f"{val_e.id} is handed back unserialised"))
         r.sample({'class': cls.name, 'problems': [p_[1] for p_ in problems]})
         if problems:
             for (node, what) in problems:
